@@ -139,6 +139,7 @@ class Opts(object):
         self.prose_first_p = 0.12       # google body starting with prose/blank (K-C08-a)
         self.unexecuted_defs_p = 0.10   # definitions in a branch that an import does not execute (outside C16)
         self.alias_names = True         # `Alias = name` second names for defs / classes (outside C16)
+        self.tabs_p = 0.15              # the whole module (code and docstrings) indented with TAB characters
         self.__dict__.update(kw)
 
 
@@ -812,8 +813,24 @@ def gen_module(rng, opts=None):
         if opts.inject_failure and m.fail is None:
             continue
         m.stmts = g.all_stmts
+        _maybe_tabs(rng, opts, m)
         return m
     return m
+
+
+def _maybe_tabs(rng, opts, m):
+    """a tab-indented code base: every full group of four leading blanks becomes one TAB, in code and in docstrings alike
+    (line numbers, names and the structure of every docstring stay what they were)"""
+    import os
+    p = float(os.environ.get('XDOCVERIF_TABS_P', getattr(opts, 'tabs_p', 0.0)))
+    if rng.random() >= p or m.cookie is not None or m.variant != 'plain':
+        return
+    out = []
+    for l in m.lines:
+        n = len(l) - len(l.lstrip(' '))
+        out.append('\t' * (n // 4) + ' ' * (n % 4) + l[n:])
+    m.lines = out
+    m.features.add('module:tab-indented')
 
 
 # ---------------------------------------------------------------------- expectations per style
